@@ -38,6 +38,8 @@ def run(ctx):
     from shapepy import EmptyShape, WholeShape, Primitive
     rng, drv = ctx.rng, ctx.drv
     E, W = EmptyShape(), WholeShape()
+    from harness import degen
+    degen.evaluate(ctx, "wellformed")      # deterministic non-transversal corpus (findings K2-*)
     # (a) expressions
     for it in range(12 if ctx.quick else 1200):
         k = rng.choice([2, 2, 3, 3, 4])
